@@ -270,6 +270,23 @@ func main() {
 		add(new(big.Int).Add(p, big.NewInt(7)))
 		add(new(big.Int).Add(new(big.Int).Neg(p), big.NewInt(42)))
 	}
+	// integers just beside the midpoint of two neighbouring float32 / float64 values (an integer that is
+	// converted through an intermediate float type is rounded twice and lands on the wrong neighbour)
+	for k := uint(24); k <= 63; k++ {
+		for _, mant := range []uint{24, 53} {
+			if k < mant {
+				continue
+			}
+			mid := new(big.Int).Add(new(big.Int).Lsh(big.NewInt(1), k), new(big.Int).Lsh(big.NewInt(1), k-mant))
+			for d := int64(-1); d <= 1; d++ {
+				v := new(big.Int).Add(mid, big.NewInt(d))
+				add(v)
+				add(new(big.Int).Neg(v))
+				// same beside an odd mantissa (ties-to-even goes the other way)
+				add(new(big.Int).Add(v, new(big.Int).Lsh(big.NewInt(1), k-mant+1)))
+			}
+		}
+	}
 	var lattice []*big.Int
 	for _, x := range lat {
 		lattice = append(lattice, x)
